@@ -603,6 +603,9 @@ func (e *Engine) subSlice(st *State, s, lo, hi *Term) *Term {
 	na := Fresh("sub", s.S.Fields[0].S)
 	j := Var("j!s", IntSort)
 	st.Assume(Forall([]*Term{j}, Eq(Select(na, j), Select(Acc(s, "arr"), Add(j, lo))), []*Term{Select(na, j)}))
+	// the same fact triggered from the source array (lets the solver find shifted witnesses)
+	j2 := Var("j!t", IntSort)
+	st.Assume(Forall([]*Term{j2}, Eq(Select(na, Sub(j2, lo)), Select(Acc(s, "arr"), j2)), []*Term{Select(Acc(s, "arr"), j2)}))
 	return Ctor(s.S, na, Sub(hi, lo))
 }
 
